@@ -18,14 +18,14 @@ PRIO = ["KSentGateable", "KLinger", "KLost", "KDup", "KOrder", "KIdent", "KEmpty
 RELEVANT = {
     "C11": lambda k, op: k in ("KRes", "KComp", "KCompose", "KSent", "KGated", "KDup", "KOrder", "KLost", "KIdent", "KEmptyId",
                                "KSentGateable", "KIndex", "KConc") or (k == "KLinger" and op == 7),
-    "C17": lambda k, op: k in ("KLinger", "KGated", "KSent", "KIndex") or (k == "KRes" and op in (1, 2, 4, 5)),
+    "C17": lambda k, op: k in ("KLinger", "KGated", "KSent", "KIndex") or (k == "KRes" and op in (1, 2, 4, 5, 7)) or (k in ("KDup", "KLost") and op == 7),
 }
 
 ARGS = {
-    ("C11", "quick"): ["-modes", "bfs,random,conc", "-bfs-depth", "5", "-bfs-sym", "-bfs-nosym-depth", "3", "-random", "300", "-random-len", "60", "-conc", "12"],
-    ("C11", "thorough"): ["-modes", "bfs,random,conc", "-bfs-depth", "7", "-bfs-sym", "-bfs-nosym-depth", "5", "-bfs-full-configs", "-random", "4000", "-random-len", "200", "-conc", "400"],
-    ("C17", "quick"): ["-modes", "bfs,random", "-bfs-depth", "5", "-bfs-sym", "-bfs-nosym-depth", "3", "-random", "400", "-random-len", "60", "-random-ids", "5"],
-    ("C17", "thorough"): ["-modes", "bfs,random,conc", "-bfs-depth", "7", "-bfs-sym", "-bfs-nosym-depth", "5", "-bfs-full-configs", "-random", "4000", "-random-len", "200", "-conc", "100"],
+    ("C11", "quick"): ["-modes", "bfs,random,blocked,conc", "-bfs-depth", "5", "-bfs-sym", "-bfs-nosym-depth", "3", "-random", "300", "-random-len", "60", "-conc", "12"],
+    ("C11", "thorough"): ["-modes", "bfs,random,blocked,conc", "-bfs-depth", "7", "-bfs-sym", "-bfs-nosym-depth", "5", "-bfs-full-configs", "-random", "4000", "-random-len", "200", "-conc", "400"],
+    ("C17", "quick"): ["-modes", "bfs,random,blocked", "-bfs-depth", "5", "-bfs-sym", "-bfs-nosym-depth", "3", "-random", "400", "-random-len", "60", "-random-ids", "5"],
+    ("C17", "thorough"): ["-modes", "bfs,random,blocked,conc", "-bfs-depth", "7", "-bfs-sym", "-bfs-nosym-depth", "5", "-bfs-full-configs", "-random", "4000", "-random-len", "200", "-conc", "100"],
 }
 
 ASSUMPTIONS = [
@@ -100,7 +100,7 @@ MANIFEST = {
                     "for no-Broker / compose error / Gateable composite / send error), handed_over_exactly_once_after_flush, accepted_withheld, flush_returns_group, non_gateable_identity, "
                     "empty_id_rejected, broker_composites_not_gateable; tie: gatedh runs every history to depth 5 (quick; up to renaming of ids, and to depth 3 without that reduction) / 7 (thorough; depth 5 without it) "
                     "over {event(3 ids, flush?), no-id event, non-Gateable, clock advances 1/exp-1/exp/exp+1, FlushAll, Close} x Broker set/unset x fault "
-                    "oracles, random histories to 200 calls over 5 ids and concurrent senders on the real filter; Run_Gated.mismatches compares result, "
+                    "oracles, random histories to 200 calls over 5 ids, concurrent senders (under -race) and 60 scenarios in which a second call arrives while the first call's Send through the Broker is parked (every group composed and sent exactly once) on the real filter; Run_Gated.mismatches compares result, "
                     "ComposeFrom arguments, Sender payloads and the VerifGated snapshot after every call and evaluates observation-only oracles",
             "design_ref": "5.C11", "note": _NOTE, "technique": _TECH, "engine": "coq-gated"},
     "C17": {"text": "theorems expired_gone (after a successful Process at T no group with expiry < T remains), expire_success / expired_emitted (exactly the "
@@ -267,6 +267,13 @@ def run(ctx, prop=None):
             "all_mismatches_of_case": [{"call": s, "op": OPK.get(o), "kind": k} for s, o, k in ms],
             "case": small, "original_case_calls": n, "cases_failing_with_any_relevant_kind": total_by_case,
             "repro": "bin/check replay <this file>"})
+        if c.get("blocked"):
+            b = c["blocked"]
+            ctx.violations.append({"match": "gated:" + sig, "replay": rp,
+                                   "what": "%s: %s — a %s arrived while the Send of a %s (%d open groups%s) was in flight through the Broker: a group was composed / sent "
+                                           "more than once, or not exactly the composites built were sent (%d cases affected in total)" % (
+                                       prop, sig, b["second"], b["first"], b["groups"], ", expired" if b.get("expired") else "", total_by_case)})
+            continue
         ctx.violations.append({"match": "gated:" + sig, "replay": rp,
                                "what": "%s: gated.Filter and its model disagree / an oracle fails: %s at call %d of a %d-call history%s (%d cases affected in total)" % (
                                    prop, sig, ms[0][0], n, "" if small is c else ", shrunk to %d calls in the replay" % _ncalls(small), total_by_case)})
